@@ -35,9 +35,9 @@ Definition fuel : nat := 300.
    property does not list) has no verdict: it is counted by no_verdict_count and not compared. *)
 Definition no_verdict (o : outcome) : bool := match o with OUnsup => true | _ => false end.
 Definition check_case (T : tables) (c : case) : N :=
-  let m := M T fuel (tx (k_ctl c)) (k_args c) in
+  let m := M_run T fuel (tx (k_ctl c)) (k_args c) in
   if no_verdict (fst m) then 0%N else
-  let s := S fuel (tx (k_ctl c)) (k_args c) in
+  let s := S_run fuel (tx (k_ctl c)) (k_args c) in
   let ms := outcome_eqb (fst m) (fst s) in
   if matches (fst m) (k_obs c) then (if untainted m && negb ms then 3%N else 0%N)
   else if ms then 2%N else 1%N.
@@ -49,8 +49,8 @@ Fixpoint check_all_from (T : tables) (i : N) (cs : list case) : list (N * N) :=
 Definition check_all (T : tables) := check_all_from T 0%N.
 (* cases inside the guard (no deviating site consulted), and cases where the implementation meets S *)
 Definition guard_count (T : tables) (cs : list case) : N :=
-  N.of_nat (List.length (filter (fun c => untainted (M T fuel (tx (k_ctl c)) (k_args c))) cs)).
+  N.of_nat (List.length (filter (fun c => untainted (M_run T fuel (tx (k_ctl c)) (k_args c))) cs)).
 Definition meets_spec_count (cs : list case) : N :=
-  N.of_nat (List.length (filter (fun c => matches (fst (S fuel (tx (k_ctl c)) (k_args c))) (k_obs c)) cs)).
+  N.of_nat (List.length (filter (fun c => matches (fst (S_run fuel (tx (k_ctl c)) (k_args c))) (k_obs c)) cs)).
 Definition no_verdict_count (T : tables) (cs : list case) : N :=
-  N.of_nat (List.length (filter (fun c => no_verdict (fst (M T fuel (tx (k_ctl c)) (k_args c)))) cs)).
+  N.of_nat (List.length (filter (fun c => no_verdict (fst (M_run T fuel (tx (k_ctl c)) (k_args c)))) cs)).
